@@ -4,6 +4,12 @@ From C19 Require Import Model Proofs ProofsMachine.
 Local Open Scope Z_scope.
 Ltac Zify.zify_post_hook ::= Z.div_mod_to_equations.
 
+Lemma COk_inj : forall A (a b : A), COk a = COk b -> a = b.
+Proof. intros A a b H. inversion H. reflexivity. Qed.
+Lemma tuple4_inj : forall A B C D (a a' : A) (b b' : B) (c c' : C) (d d' : D),
+  (a, b, c, d) = (a', b', c', d') -> a = a' /\ b = b' /\ c = c' /\ d = d'.
+Proof. intros. inversion H. auto. Qed.
+
 Lemma regime_cases : forall size, 0 <= size ->
   match regime_of size with
   | Small => 0 <= size <= SMALL_SIZE_LIMIT
@@ -64,8 +70,8 @@ Proof.
       as [[[cs' [s0 i]] uf]| | | |]; try discriminate.
     destruct S as (_ & Nin & Ri). simpl in Ri.
     destruct (uf && range_in_use psh h e_span 1); [discriminate|].
-    injection E as E1 E2 E3 E4. subst h' s off us.
-    destruct (block_geometry c s i V Ri) as (G1 & G2 & G3 & _).
+    cbv beta iota in E. apply COk_inj in E. apply tuple4_inj in E. destruct E as (E1 & E2 & E3 & E4). subst h' s off us.
+    destruct (block_geometry c s0 i V Ri) as (G1 & G2 & G3 & _).
     split; [assumption|]. split; [assumption|]. split; [assumption|]. split; [assumption|].
     unfold block_offset. replace (SPAN_HEADER_SIZE + i * class_bs c - SPAN_HEADER_SIZE) with (i * class_bs c) by ring.
     rewrite Z.div_mul by (destruct V as (_ & B & _); lia). assumption. }
@@ -76,10 +82,10 @@ Proof.
     destruct ((e_count <? large_span_count size) || (LARGE_CLASS_COUNT <? e_count) || range_in_use psh h e_span e_count) eqn:Q;
       [discriminate|].
     apply orb_false_elim in Q. destruct Q as [Q _]. apply orb_false_elim in Q. destruct Q as [Q _].
-    apply Z.ltb_ge in Q. injection HA as E1 E2 E3 E4. subst h' s off us.
+    apply Z.ltb_ge in Q. apply COk_inj in HA. apply tuple4_inj in HA. destruct HA as (E1 & E2 & E3 & E4). subst h' s off us.
     split; [apply Fit; assumption|]. split; [apply header_aligned|]. split; [lia | reflexivity].
   - destruct (range_in_use psh h e_span (big_units psh (BHuge (huge_pages psh size)))); [discriminate|].
-    injection HA as E1 E2 E3 E4. subst h' s off us. destruct (huge_fits psh size Hp H0 Hw) as [F _].
+    apply COk_inj in HA. apply tuple4_inj in HA. destruct HA as (E1 & E2 & E3 & E4). subst h' s off us. destruct (huge_fits psh size Hp H0 Hw) as [F _].
     split; [assumption|]. split; [apply header_aligned|]. split; [lia | reflexivity].
 Qed.
 
